@@ -318,7 +318,7 @@ func splitAnnot(f []byte, column, line int) (tag, value []byte) {
 	for i, b = range f {
 		space := unicode.IsSpace(rune(b))
 		if !split {
-			if !space && !alphaNum[b] {
+			if !space && !alphaNum[b] && !(i > 0 && '0' <= b && b <= '9') {
 				panic(&csv.ParseError{Line: line, Column: column, Err: ErrBadTag})
 			}
 			if space {
